@@ -1,6 +1,7 @@
 package props
 
 import (
+	"os"
 	"bytes"
 	"compress/gzip"
 	"encoding/binary"
@@ -353,6 +354,23 @@ func (c16) Run(e *simkit.Env, cc any) {
 		return
 	}
 
+	{
+		var fl, hl []int
+		for _, f := range frames {
+			fl = append(fl, len(f))
+		}
+		for _, h := range hs {
+			hl = append(hl, len(h))
+		}
+		e.Logf("corpus frames=%v handshake=%v", fl, hl)
+		if os.Getenv("VERIF_C16_HEX") != "" {
+			for _, f := range frames {
+				if len(f) > 2000 {
+					e.Logf("hex %x", f)
+				}
+			}
+		}
+	}
 	// background traffic B -> A and local traffic on A, all along
 	sh := &Hooks{Name: "streamer", Env: e}
 	sdone := make(chan struct{})
